@@ -115,8 +115,17 @@ class Result:
 
     def violation(self, what, witness=None, signature=None):
         self.count('violations_raw')
-        if len(self.violations) < 50:
+        if signature is not None:
+            self.count('violations_with_a_known_mechanism')
+        # keep up to 50 violations without a classified mechanism and up to 10 per mechanism: occurrences of a known
+        # finding must never crowd a new violation out of the report
+        same = sum(1 for v in self.violations if v['signature'] == signature)
+        if same < (50 if signature is None else 10):
             self.violations.append({'signature': signature, 'what': what, 'witness': jsonable(witness)})
+
+    def new_violations(self):
+        """Violations seen so far whose mechanism is not a classified (possibly known) one - for early exits."""
+        return self.counters.get('violations_raw', 0) - self.counters.get('violations_with_a_known_mechanism', 0)
 
     def to_json(self):
         return {
@@ -274,8 +283,9 @@ def finish(prop, tier, seed, level, result, rule, distinct_keys, t0,
             f.write('\n')
 
     for sig, vs in absorbed.items():
-        print('KNOWN-FINDING: property=%s %s [%d occurrence(s) this run; e.g. %s]' % (
-            prop, open_sigs[sig]['what'], len(vs), json.dumps(vs[0]['witness'], default=repr)[:300]))
+        print('KNOWN-FINDING: property=%s %s [%d occurrence(s) kept of %d with a classified mechanism this run; e.g. %s]' % (
+            prop, open_sigs[sig]['what'], len(vs), result.counters.get('violations_with_a_known_mechanism', len(vs)),
+            json.dumps(vs[0]['witness'], default=repr)[:300]))
     code = EXIT_HELD
     if new and os.environ.get('VF_DUMP'):
         with open(os.environ['VF_DUMP'], 'w') as f:
